@@ -39,4 +39,10 @@ CHECKS = {
         "text": "Bounded-exhaustive: every selector form x every integer type x bounds in -B..B plus the type's extremes x a list of axis lengths incl. lengths beyond i8/i16 range is replayed through the real ViewBounds impls and each result is judged by TLC against ViewBounds!Resolve, which TLC has itself checked against an independent element-wise reading of Python slicing on all selectors with n<=6.",
         "note": "Trusts TLC, the Json module and the harness's sentinel mapping (+-2e9 -> type MIN/MAX); bounds of magnitude >= 2^31 are abstracted as infinite, exact for axis lengths < 2^31.",
     },
+    "C15": {
+        "level": "model_checking",
+        "technique": "TLA+ transcription of the NFA combinators (in-place epsilon edges, renumbering), closure and subset run model-checked against regular-expression semantics for all expressions up to an operator bound; same expressions replayed through the public NFA API and judged by TLC",
+        "text": "TLC checks, one state per expression, that the code-shaped construction accepts exactly the language of every expression with <= 3 (thorough 4) operators over two symbols on every string of length <= 4 (5), that tags after a string are exactly the matching alternatives of every tagged pair, and that terminal states admit no matching extension. Every one of these expressions is then built through the real NFA API under three byte mappings (incl. 0x00 and 0xFF), compiled, and walked; TLC judges accept/tags/terminal per string and that all 256 bytes are answered with a dead transition outside the alphabet.",
+        "note": "Single-byte literals only; byte classes and the production grammars are covered indirectly via C03/C04. Terminal is judged in the sound direction only.",
+    },
 }
